@@ -34,7 +34,14 @@ def execute(c):
                 vals, nodata, nd_enc = ids.astype(dt), 0, 0
             out = np.full(dst.shape, nodata, dtype=dt)
             kw = {} if dt == np.bool_ else {"dst_nodata": nodata}
-            out = rio_reproject(vals, out, src, dst, resampling="nearest", **kw)
+            if (c["hs"] + c["wd"] + k) % 3 == 0:
+                # the same image as two planes of a 3-d array: every plane must be warped like the 2-d image
+                out3 = rio_reproject(np.stack([vals, vals]), np.stack([out, out]), src, dst, resampling="nearest", **kw)
+                if out3.shape != (2, *dst.shape) or not np.array_equal(out3[0], out3[1], equal_nan=True):
+                    ev["outcome"] = "planes_of_a_3d_array_warped_differently"
+                out = out3[0]
+            else:
+                out = rio_reproject(vals, out, src, dst, resampling="nearest", **kw)
             if out.dtype != dt:
                 ev["outcome"] = f"warp_changed_dtype_to_{out.dtype}"
             o = np.where(np.isnan(out), -1, out).astype("int64") if dt.kind == "f" else out.astype("int64")
